@@ -20,6 +20,9 @@ WITNESSES = [
     ("stale-staging-modified", "w:1,s,w:12,sn,w:2,sn,L,w:1,s,w:2,s,w:12,c"),
     ("load-during-persist", "w:2,s[snap.persisted:L],sn,w:1,s,c"),
     ("load-after-finalizer", "w:2,s[snap.finalized:L],sn,w:1,s,w:2,c"),
+    ("load-during-incremental-persist", "w:1,s,w:2,s[snap.persisted:L],sn,w:1,s,c"),
+    ("load-after-incremental-finalizer", "w:1,s,w:2,s[snap.finalized:L],sn,w:1,s,w:2,c"),
+    ("load-during-incremental-persist-2", "w:12,s,w:1,s,w:2,s[snap.persisted:L;w:1],sn,w:2,s,w:1,s,c"),
     ("refused-incremental", "w:1,s,w:2,s[snap.persisted:w:1],L,w:2,s,w:1,s,c"),
     ("reap", "w:1,s,w:2,s,w:12,s,r,w:1,s,c"),
 ]
